@@ -53,6 +53,8 @@ class TermModel:
         self.unknown = []
         self.nbytes = 0
         self.dsr_count = 0
+        self.dsr_position = None      # scripted (row1, col1) to report instead of the cursor
+        self.last_dsr = None          # zero-based (row, col) most recently reported
         self._st = 0                  # parser state: 0 ground, 1 esc, 2 csi, 3 esc-intermediate
         self._buf = ""
         self.el_in_pending = 0        # probe: EL executed while pending wrap
@@ -415,9 +417,14 @@ class TermModel:
         elif final == "n":
             if p0(0) == 6:
                 self.dsr_count += 1
+                if self.dsr_position is not None:
+                    r1, c1 = self.dsr_position
+                else:
+                    r1, c1 = self.r + 1, self.c + 1
+                self.last_dsr = (r1 - 1, c1 - 1)
                 if self.reply is not None:
                     csi = "\x9b" if self.c1_reply else "\x1b["
-                    self.reply("%s%d;%dR" % (csi, self.r + 1, self.c + 1))
+                    self.reply("%s%d;%dR" % (csi, r1, c1))
             elif p0(0) == 5:
                 if self.reply is not None:
                     self.reply("\x1b[0n")
